@@ -1,3 +1,944 @@
+// vcheck runs the deterministic-simulation check of one property:
+//
+//	vcheck C10 --tier quick|thorough [--seed N] [--budget 90s] [--runs N]
+//	vcheck --replay <file>            re-execute a replay file, print its log
+//
+// Exit 0: property held on everything explored (KNOWN-FINDING lines allowed);
+// exit 1: "VIOLATION property=<id> replay=<path>" printed; exit 2: harness/build trouble.
 package main
 
-func main() {}
+import (
+	"bytes"
+	"crypto/sha256"
+	"encoding/hex"
+	"encoding/json"
+	"flag"
+	"fmt"
+	"os"
+	"os/exec"
+	"path/filepath"
+	"regexp"
+	"sort"
+	"strconv"
+	"strings"
+	"sync"
+	"time"
+)
+
+const V = "/verif"
+
+type Violation struct {
+	Property string `json:"property"`
+	Oracle   string `json:"oracle"`
+	Detail   string `json:"detail"`
+	At       string `json:"at"`
+	Seq      uint64 `json:"seq"`
+}
+
+type Result struct {
+	Scenario   string           `json:"scenario"`
+	Seed       uint64           `json:"seed"`
+	PlanHash   string           `json:"plan_hash"`
+	TraceHash  string           `json:"trace_hash"`
+	SimTime    float64          `json:"sim_seconds"`
+	Events     uint64           `json:"events"`
+	SchedDraws uint64           `json:"sched_draws"`
+	Violations []Violation      `json:"violations"`
+	Counters   map[string]int64 `json:"counters"`
+	Stats      map[string]any   `json:"stats"`
+	NonTrivial bool             `json:"nontrivial"`
+	Signature  string           `json:"signature"`
+	HarnessErr string           `json:"harness_error"`
+	LogTail    []string         `json:"log_tail"`
+}
+
+// runOutcome is one executed simulation process.
+type runOutcome struct {
+	Scenario string
+	Seed     uint64
+	PlanFile string
+	Res      *Result
+	Kind     string // ok, violation, crash, hang, harness
+	Viol     *Violation
+	Stderr   string
+	Wall     time.Duration
+}
+
+type scenarioRef struct {
+	Name   string
+	Weight int
+}
+
+type propCfg struct {
+	Scenarios []scenarioRef
+	// OwnsCrash: a crash/hang of rain in these scenarios is a violation of this property.
+	OwnsCrash   bool
+	Level       string
+	Rule        string
+	Assumptions []string
+	QuickBudget time.Duration
+	ThorBudget  time.Duration
+	Race        bool
+}
+
+var commonAssumptions = []string{
+	"scheduler: go1.26.8 runtime patched at build time (-overlay): one goroutine at a time, switches only at blocking points, every choice from the run seed",
+	"clock: testing/synctest fake time; network: simnet (in-memory TCP/UDP/DNS); disk: simfs (in-memory, durability model); resume DB: real bbolt on /dev/shm, commit atomic w.r.t. simulated crash points",
+	"real code: all of rain's torrent/ and internal/ packages incl. filestorage, mse, trackers, resumer+bbolt, net/http; stubs: DHT node (recording stub), console/CLI not exercised",
+	"remote peers, trackers and web seeds are scripted actors written from the BEPs (refbt), independent of rain's codec",
+}
+
+var props = map[string]*propCfg{}
+
+func init() {
+	props["C10"] = &propCfg{Scenarios: []scenarioRef{{"transfer_clean", 2}, {"transfer_byz", 3}}, Level: "exploration",
+		Rule: "plans (layout, knobs, actors, fault steps) generated from the seed; a run is non-trivial if at least one piece write reached the simulated disk; distinct = distinct event-trace hashes among non-trivial runs"}
+	props["C01"] = &propCfg{Scenarios: []scenarioRef{{"transfer_byz", 4}, {"transfer_clean", 1}}, Level: "exploration",
+		Rule: "plans generated from the seed with byzantine peers / faulty web seeds / stop-start commands; non-trivial if at least one piece write reached the simulated disk; distinct = distinct event-trace hashes among non-trivial runs"}
+}
+
+// ---------------------------------------------------------------------------
+
+func die(code int, f string, a ...any) {
+	fmt.Fprintf(os.Stderr, "vcheck: "+f+"\n", a...)
+	os.Exit(code)
+}
+
+func build(race bool) string {
+	args := []string{}
+	if race {
+		args = append(args, "race")
+	}
+	cmd := exec.Command(V+"/build.sh", args...)
+	var out bytes.Buffer
+	cmd.Stdout = &out
+	cmd.Stderr = os.Stderr
+	if err := cmd.Run(); err != nil {
+		die(2, "build failed: %v", err)
+	}
+	return strings.TrimSpace(out.String())
+}
+
+type runner struct {
+	bin     string
+	tier    string
+	workDir string
+	timeout time.Duration
+}
+
+func (r *runner) run(scenario string, seed uint64, planFile string, extraEnv ...string) *runOutcome {
+	id := fmt.Sprintf("%s-%d-%d", scenario, seed, time.Now().UnixNano())
+	out := filepath.Join(r.workDir, id+".json")
+	planOut := filepath.Join(r.workDir, id+".plan.json")
+	cmd := exec.Command(r.bin, "-test.run", "^TestSim$", "-test.timeout", "0")
+	env := append(os.Environ(), "SIMRT=1", "GOMAXPROCS=1", "GOGC=off", "SIM_OUT="+out, "SIM_TIER="+r.tier, "GOTRACEBACK=all")
+	if planFile != "" {
+		env = append(env, "SIM_PLAN="+planFile)
+	} else {
+		env = append(env, "SIM_SCENARIO="+scenario, "SIM_SEED="+strconv.FormatUint(seed, 10), "SIM_PLAN_OUT="+planOut)
+	}
+	env = append(env, extraEnv...)
+	cmd.Env = env
+	var stderr bytes.Buffer
+	cmd.Stderr = &stderr
+	cmd.Stdout = &stderr
+	t0 := time.Now()
+	if err := cmd.Start(); err != nil {
+		return &runOutcome{Scenario: scenario, Seed: seed, Kind: "harness", Stderr: err.Error()}
+	}
+	done := make(chan error, 1)
+	go func() { done <- cmd.Wait() }()
+	o := &runOutcome{Scenario: scenario, Seed: seed, PlanFile: planFile}
+	if planFile == "" {
+		o.PlanFile = planOut
+	}
+	var werr error
+	select {
+	case werr = <-done:
+	case <-time.After(r.timeout):
+		cmd.Process.Kill()
+		<-done
+		o.Kind = "hang"
+		o.Wall = time.Since(t0)
+		o.Stderr = tail(stderr.String(), 4000)
+		cleanupShm(stderr.String())
+		return o
+	}
+	o.Wall = time.Since(t0)
+	o.Stderr = stderr.String()
+	b, rerr := os.ReadFile(out)
+	os.Remove(out)
+	if rerr == nil {
+		var res Result
+		if json.Unmarshal(b, &res) == nil {
+			o.Res = &res
+		}
+	}
+	switch {
+	case o.Res != nil && o.Res.HarnessErr != "":
+		o.Kind = "harness"
+		o.Stderr = o.Res.HarnessErr
+	case o.Res != nil && len(o.Res.Violations) > 0:
+		o.Kind = "violation"
+		o.Viol = &o.Res.Violations[0]
+	case o.Res != nil:
+		o.Kind = "ok"
+	default:
+		// no result file: the process died
+		_ = werr
+		o.Kind, o.Viol = classifyCrash(o.Stderr)
+		cleanupShm(o.Stderr)
+	}
+	return o
+}
+
+func cleanupShm(stderr string) {
+	// best effort: remove temp dirs of dead processes (named in crash messages or left over)
+	ents, _ := filepath.Glob("/dev/shm/vsim-*")
+	for _, e := range ents {
+		if fi, err := os.Stat(e); err == nil && time.Since(fi.ModTime()) > 10*time.Minute {
+			os.RemoveAll(e)
+		}
+	}
+}
+
+func tail(s string, n int) string {
+	if len(s) > n {
+		return s[len(s)-n:]
+	}
+	return s
+}
+
+var rePanic = regexp.MustCompile(`(?m)^(panic: .*|fatal error: .*)$`)
+var reFrame = regexp.MustCompile(`(?m)^([A-Za-z0-9_./\-]+(?:\(\*?[A-Za-z0-9_]+(?:\[[^\]]*\])?\))?\.[A-Za-z0-9_.\-\[\]]+)\(`)
+var reRace = regexp.MustCompile(`WARNING: DATA RACE`)
+
+// classifyCrash turns a dead process's stderr into a violation (rain crashed) or a harness error.
+func classifyCrash(stderr string) (string, *Violation) {
+	if reRace.MatchString(stderr) {
+		return "violation", &Violation{Property: "C20", Oracle: "race", Detail: raceSignature(stderr)}
+	}
+	m := rePanic.FindString(stderr)
+	if m == "" {
+		return "harness", nil
+	}
+	// take the frames of the first goroutine after the panic line
+	idx := strings.Index(stderr, m)
+	rest := stderr[idx:]
+	frames := reFrame.FindAllStringSubmatch(rest, 40)
+	var rain []string
+	harness := false
+	for _, f := range frames {
+		fn := f[1]
+		if strings.HasPrefix(fn, "runtime.") || strings.HasPrefix(fn, "panic") || strings.HasPrefix(fn, "testing.") || strings.HasPrefix(fn, "internal/") {
+			continue
+		}
+		if strings.Contains(fn, "/internal/zzsim/") {
+			if len(rain) == 0 {
+				harness = true
+			}
+			break
+		}
+		if strings.Contains(fn, "cenkalti/rain") || len(rain) > 0 {
+			rain = append(rain, shortFn(fn))
+			if len(rain) >= 4 {
+				break
+			}
+		} else {
+			rain = append(rain, shortFn(fn))
+			if len(rain) >= 4 {
+				break
+			}
+		}
+	}
+	msg := normalisePanic(m)
+	if strings.HasPrefix(m, "panic: harness:") || strings.Contains(m, "simnet:") || strings.Contains(m, "simfs:") || strings.Contains(m, "simrt.") {
+		return "harness", nil
+	}
+	if harness && !strings.Contains(m, "does not respond") {
+		return "harness", nil
+	}
+	if strings.Contains(m, "all goroutines in bubble are blocked") {
+		return "violation", &Violation{Property: "CRASH", Oracle: "deadlock", Detail: msg}
+	}
+	return "violation", &Violation{Property: "CRASH", Oracle: "panic", Detail: msg + " @ " + strings.Join(rain, " < ")}
+}
+
+func shortFn(fn string) string {
+	fn = strings.TrimPrefix(fn, "github.com/cenkalti/rain/v2/")
+	return fn
+}
+
+var reNum = regexp.MustCompile(`0x[0-9a-f]+|\b\d+\b`)
+var reDump = regexp.MustCompile(`Saving goroutine stacks to: \S+`)
+
+func normalisePanic(m string) string {
+	m = reDump.ReplaceAllString(m, "")
+	m = strings.TrimSuffix(m, " [recovered]")
+	m = reNum.ReplaceAllString(m, "N")
+	if len(m) > 200 {
+		m = m[:200]
+	}
+	return strings.TrimSpace(m)
+}
+
+func raceSignature(stderr string) string {
+	// function pairs of the first report
+	i := strings.Index(stderr, "WARNING: DATA RACE")
+	rest := stderr[i:]
+	if j := strings.Index(rest, "=================="); j > 0 {
+		rest = rest[:j]
+	}
+	var fns []string
+	for _, blk := range strings.Split(rest, "\n\n") {
+		lines := strings.Split(strings.TrimSpace(blk), "\n")
+		if len(lines) < 2 {
+			continue
+		}
+		head := lines[0]
+		if !(strings.Contains(head, "Write at") || strings.Contains(head, "Read at") || strings.Contains(head, "Previous write") || strings.Contains(head, "Previous read") || strings.Contains(head, "DATA RACE")) {
+			continue
+		}
+		for _, l := range lines[1:] {
+			l = strings.TrimSpace(l)
+			if strings.HasSuffix(l, ")") && !strings.HasPrefix(l, "/") && !strings.HasPrefix(l, "runtime.") && !strings.HasPrefix(l, "sync") {
+				if k := strings.Index(l, "("); k > 0 {
+					fns = append(fns, shortFn(l[:k]))
+					break
+				}
+			}
+		}
+	}
+	if len(fns) > 2 {
+		fns = fns[:2]
+	}
+	sort.Strings(fns)
+	return "data race: " + strings.Join(fns, " <-> ")
+}
+
+// ---------------------------------------------------------------------------
+// known findings
+
+type Finding struct {
+	ID       string `json:"id"`
+	Property string `json:"property"`
+	Status   string `json:"status"` // "open" or "fixed"
+	Commit   string `json:"commit,omitempty"`
+	Oracle   string `json:"oracle"`
+	Match    string `json:"match"` // regexp over the violation detail
+	Replay   string `json:"replay,omitempty"`
+	What     string `json:"what"`
+	re       *regexp.Regexp
+}
+
+func loadFindings() []*Finding {
+	b, err := os.ReadFile(V + "/known_findings.json")
+	if err != nil {
+		return nil
+	}
+	var fs []*Finding
+	if err := json.Unmarshal(b, &fs); err != nil {
+		die(2, "known_findings.json: %v", err)
+	}
+	for _, f := range fs {
+		re, err := regexp.Compile(f.Match)
+		if err != nil {
+			die(2, "known_findings.json: bad match for %s: %v", f.ID, err)
+		}
+		f.re = re
+	}
+	return fs
+}
+
+func matchFinding(fs []*Finding, v *Violation) *Finding {
+	for _, f := range fs {
+		if f.Status != "open" {
+			continue
+		}
+		if f.Property == v.Property && f.Oracle == v.Oracle && f.re.MatchString(v.Detail) {
+			return f
+		}
+	}
+	return nil
+}
+
+// ---------------------------------------------------------------------------
+// replay files
+
+type Replay struct {
+	Property  string          `json:"property"`
+	Oracle    string          `json:"oracle"`
+	Detail    string          `json:"detail"`
+	Scenario  string          `json:"scenario"`
+	Seed      uint64          `json:"seed"`
+	TraceHash string          `json:"trace_hash"`
+	Race      bool            `json:"race,omitempty"`
+	Plan      json.RawMessage `json:"plan"`
+	Minimised bool            `json:"minimised"`
+	Note      string          `json:"note,omitempty"`
+}
+
+func sigOf(v *Violation) string { return v.Property + "/" + v.Oracle }
+
+func writePlan(dir string, plan []byte) string {
+	h := sha256.Sum256(plan)
+	p := filepath.Join(dir, "plan-"+hex.EncodeToString(h[:6])+".json")
+	os.WriteFile(p, plan, 0o644)
+	return p
+}
+
+// ---------------------------------------------------------------------------
+// minimiser: generic JSON plan reduction
+
+func minimise(r *runner, planBytes []byte, want *Violation, budget int) ([]byte, int) {
+	var plan map[string]any
+	if json.Unmarshal(planBytes, &plan) != nil {
+		return planBytes, 0
+	}
+	tries := 0
+	test := func(p map[string]any) bool {
+		if tries >= budget {
+			return false
+		}
+		tries++
+		b, _ := json.Marshal(p)
+		pf := writePlan(r.workDir, b)
+		defer os.Remove(pf)
+		o := r.run("min", 0, pf)
+		return o.Viol != nil && o.Viol.Property == want.Property && o.Viol.Oracle == want.Oracle
+	}
+	clone := func(p map[string]any) map[string]any {
+		b, _ := json.Marshal(p)
+		var q map[string]any
+		json.Unmarshal(b, &q)
+		return q
+	}
+	// find the scenario sub-plan (first object-valued key other than the header)
+	var sub string
+	for _, k := range []string{"transfer", "lifecycle", "tracker", "registry", "generic"} {
+		if _, ok := plan[k].(map[string]any); ok {
+			sub = k
+		}
+	}
+	if sub == "" {
+		return planBytes, 0
+	}
+	changed := true
+	for changed && tries < budget {
+		changed = false
+		sp := plan[sub].(map[string]any)
+		// 1. delete list elements (actors, steps, ...)
+		keys := make([]string, 0)
+		for k, v := range sp {
+			if _, ok := v.([]any); ok {
+				keys = append(keys, k)
+			}
+		}
+		sort.Strings(keys)
+		for _, k := range keys {
+			arr := sp[k].([]any)
+			// try removing chunks, then single elements
+			for chunk := len(arr) / 2; chunk >= 1; chunk /= 2 {
+				for i := 0; i+chunk <= len(arr); {
+					cand := clone(plan)
+					ca := cand[sub].(map[string]any)[k].([]any)
+					na := append(append([]any{}, ca[:i]...), ca[i+chunk:]...)
+					cand[sub].(map[string]any)[k] = na
+					if test(cand) {
+						plan = cand
+						arr = na
+						changed = true
+					} else {
+						i += chunk
+					}
+					if tries >= budget {
+						break
+					}
+				}
+			}
+		}
+		// 2. reset knobs to defaults one by one
+		sp = plan[sub].(map[string]any)
+		if kn, ok := sp["knobs"].(map[string]any); ok {
+			ks := make([]string, 0, len(kn))
+			for k := range kn {
+				ks = append(ks, k)
+			}
+			sort.Strings(ks)
+			for _, k := range ks {
+				cand := clone(plan)
+				delete(cand[sub].(map[string]any)["knobs"].(map[string]any), k)
+				if test(cand) {
+					plan = cand
+					changed = true
+				}
+			}
+		}
+	}
+	b, _ := json.MarshalIndent(plan, "", " ")
+	return b, tries
+}
+
+// ---------------------------------------------------------------------------
+
+type evidence struct {
+	PropertyID  string         `json:"property_id"`
+	Tier        string         `json:"tier"`
+	Seed        int64          `json:"seed"`
+	Level       string         `json:"level"`
+	Coverage    map[string]any `json:"coverage"`
+	Assumptions []string       `json:"assumptions"`
+	WallS       float64        `json:"wall_s"`
+	Violations  int            `json:"violations"`
+}
+
+func main() {
+	tier := flag.String("tier", os.Getenv("VERIF_TIER"), "quick or thorough")
+	seedFlag := flag.String("seed", os.Getenv("VERIF_SEED"), "base seed")
+	budgetFlag := flag.Duration("budget", 0, "wall-clock exploration budget")
+	maxRuns := flag.Int("runs", 0, "max runs (0 = budget only)")
+	replay := flag.String("replay", "", "replay file to re-execute")
+	workers := flag.Int("workers", 16, "parallel simulation processes")
+	onlyScenario := flag.String("scenario", "", "restrict to one scenario (dev)")
+	// allow "vcheck C10 --tier quick": move the first non-flag argument to the end
+	args := os.Args[1:]
+	var pos []string
+	var flags []string
+	for i := 0; i < len(args); i++ {
+		if strings.HasPrefix(args[i], "-") {
+			flags = append(flags, args[i])
+			if !strings.Contains(args[i], "=") && i+1 < len(args) && !strings.HasPrefix(args[i+1], "-") {
+				flags = append(flags, args[i+1])
+				i++
+			}
+		} else {
+			pos = append(pos, args[i])
+		}
+	}
+	flag.CommandLine.Parse(flags)
+	if *tier == "" {
+		*tier = "quick"
+	}
+	work, err := os.MkdirTemp("/dev/shm", "vcheck-")
+	if err != nil {
+		die(2, "%v", err)
+	}
+	defer os.RemoveAll(work)
+
+	if *replay != "" {
+		os.Exit(doReplay(*replay, work, true))
+	}
+	if len(pos) != 1 {
+		die(2, "usage: vcheck <property> [--tier quick|thorough] [--seed N]")
+	}
+	prop := pos[0]
+	cfg := props[prop]
+	if cfg == nil {
+		die(2, "no check registered for %s", prop)
+	}
+	baseSeed := int64(1)
+	if *seedFlag != "" {
+		if v, err := strconv.ParseInt(*seedFlag, 10, 64); err == nil {
+			baseSeed = v
+		}
+	}
+	budget := 75 * time.Second
+	if cfg.QuickBudget > 0 {
+		budget = cfg.QuickBudget
+	}
+	if *tier == "thorough" {
+		budget = 20 * time.Minute
+		if cfg.ThorBudget > 0 {
+			budget = cfg.ThorBudget
+		}
+	}
+	if *budgetFlag > 0 {
+		budget = *budgetFlag
+	}
+	t0 := time.Now()
+	dir := build(cfg.Race)
+	bin := dir + "/sim.test"
+	if cfg.Race {
+		bin = dir + "/sim.race.test"
+	}
+	r := &runner{bin: bin, tier: *tier, workDir: work, timeout: 240 * time.Second}
+	findings := loadFindings()
+
+	exit := 0
+	// 1. known findings of this property: replay each open one
+	for _, f := range findings {
+		if f.Property != prop || f.Status != "open" || f.Replay == "" {
+			continue
+		}
+		rp := readReplay(filepath.Join(V, f.Replay))
+		pf := writePlan(work, rp.Plan)
+		o := r.run(rp.Scenario, rp.Seed, pf)
+		if o.Viol != nil && matchFinding([]*Finding{f}, normViol(o.Viol, prop, cfg)) != nil {
+			fmt.Printf("KNOWN-FINDING: property=%s %s\n", prop, f.What)
+		} else {
+			fmt.Printf("note: known finding %s did not reproduce on this tree (kind=%s)\n", f.ID, o.Kind)
+		}
+	}
+
+	// 2. exploration
+	type job struct {
+		sc   string
+		seed uint64
+	}
+	var scen []scenarioRef
+	for _, s := range cfg.Scenarios {
+		if *onlyScenario == "" || *onlyScenario == s.Name {
+			scen = append(scen, s)
+		}
+	}
+	totalW := 0
+	for _, s := range scen {
+		totalW += s.Weight
+	}
+	jobs := make(chan job)
+	results := make(chan *runOutcome, 64)
+	var wg sync.WaitGroup
+	for i := 0; i < *workers; i++ {
+		wg.Add(1)
+		go func() {
+			defer wg.Done()
+			for j := range jobs {
+				results <- r.run(j.sc, j.seed, "")
+			}
+		}()
+	}
+	stop := make(chan struct{})
+	go func() {
+		n := 0
+		deadline := t0.Add(budget)
+		for {
+			if time.Now().After(deadline) || (*maxRuns > 0 && n >= *maxRuns) {
+				break
+			}
+			select {
+			case <-stop:
+				close(jobs)
+				return
+			default:
+			}
+			k := n % totalW
+			sc := scen[0].Name
+			for _, s := range scen {
+				if k < s.Weight {
+					sc = s.Name
+					break
+				}
+				k -= s.Weight
+			}
+			seed := uint64(baseSeed)*1000003 + uint64(n)
+			select {
+			case jobs <- job{sc, seed}:
+				n++
+			case <-stop:
+				close(jobs)
+				return
+			}
+		}
+		close(jobs)
+	}()
+	go func() { wg.Wait(); close(results) }()
+
+	var (
+		evals, nontriv             int
+		distinct                   = map[string]bool{}
+		distinctSig                = map[string]bool{}
+		counters                   = map[string]int64{}
+		simSeconds                 float64
+		perScenario                = map[string]int{}
+		foreign                    = map[string]int{}
+		known                      = map[string]int{}
+		samples                    []any
+		newViol                    *runOutcome
+		harnessErrs                []string
+		hangs                      int
+		sampleSeeds                []job
+		traceBySeed                = map[string]string{}
+		probeZero                  []string
+		totalEvents, totalDraws    uint64
+	)
+	stopped := false
+	for o := range results {
+		evals++
+		perScenario[o.Scenario]++
+		if o.Res != nil {
+			simSeconds += o.Res.SimTime
+			totalEvents += o.Res.Events
+			totalDraws += o.Res.SchedDraws
+			for k, v := range o.Res.Counters {
+				counters[k] += v
+			}
+			if o.Res.NonTrivial {
+				nontriv++
+				distinct[o.Res.TraceHash] = true
+				distinctSig[o.Res.Signature] = true
+			}
+			if len(samples) < 3 && o.Res.NonTrivial && o.Kind == "ok" {
+				if pb, err := os.ReadFile(o.PlanFile); err == nil {
+					var pj any
+					json.Unmarshal(pb, &pj)
+					samples = append(samples, map[string]any{"scenario": o.Scenario, "seed": o.Seed, "trace_hash": o.Res.TraceHash, "sim_seconds": o.Res.SimTime, "events": o.Res.Events, "stats": o.Res.Stats, "plan": compactPlan(pj)})
+				}
+			}
+			if len(sampleSeeds) < 4 && o.Kind == "ok" {
+				sampleSeeds = append(sampleSeeds, job{o.Scenario, o.Seed})
+				traceBySeed[fmt.Sprintf("%s/%d", o.Scenario, o.Seed)] = o.Res.TraceHash
+			}
+		}
+		switch o.Kind {
+		case "harness":
+			harnessErrs = append(harnessErrs, fmt.Sprintf("%s seed %d: %s", o.Scenario, o.Seed, tail(o.Stderr, 1500)))
+		case "hang":
+			hangs++
+			v := &Violation{Property: "CRASH", Oracle: "hang", Detail: "no progress: process killed by the wall-clock watchdog"}
+			o.Viol = v
+			fallthrough
+		case "violation":
+			v := normViol(o.Viol, prop, cfg)
+			switch {
+			case v.Property != prop:
+				foreign[sigOf(v)]++
+				if foreign[sigOf(v)] == 1 {
+					fmt.Printf("foreign: %s seed=%d %s: %s\n", o.Scenario, o.Seed, sigOf(v), v.Detail)
+				}
+			case matchFinding(findings, v) != nil:
+				known[matchFinding(findings, v).ID]++
+			default:
+				if newViol == nil {
+					o.Viol = v
+					newViol = o
+					if !stopped {
+						stopped = true
+						close(stop)
+					}
+				}
+			}
+		}
+		if o.PlanFile != "" && (newViol == nil || o != newViol) && strings.HasPrefix(o.PlanFile, work) {
+			os.Remove(o.PlanFile)
+		}
+	}
+	if !stopped {
+		close(stop)
+	}
+
+	if len(harnessErrs) > 0 && evals > 0 && float64(len(harnessErrs)) > 0 {
+		fmt.Fprintf(os.Stderr, "vcheck: %d harness errors, first: %s\n", len(harnessErrs), harnessErrs[0])
+		os.Exit(2)
+	}
+
+	// 3. determinism self-check on a sample
+	detChecked, detMismatch := 0, 0
+	if newViol == nil {
+		for _, j := range sampleSeeds {
+			o := r.run(j.sc, j.seed, "")
+			os.Remove(o.PlanFile)
+			if o.Res == nil {
+				continue
+			}
+			detChecked++
+			if o.Res.TraceHash != traceBySeed[fmt.Sprintf("%s/%d", j.sc, j.seed)] {
+				detMismatch++
+				fmt.Fprintf(os.Stderr, "vcheck: determinism mismatch %s seed %d\n", j.sc, j.seed)
+			}
+		}
+		if detMismatch > 0 {
+			os.Exit(2)
+		}
+	}
+
+	// 4. new violation: minimise, write replay, replay in a fresh process
+	nviol := 0
+	if newViol != nil {
+		nviol = 1
+		exit = 1
+		planBytes, _ := os.ReadFile(newViol.PlanFile)
+		minBudget := 40
+		if *tier == "thorough" {
+			minBudget = 150
+		}
+		minPlan, tries := planBytes, 0
+		if newViol.Kind != "hang" {
+			minPlan, tries = minimise(r, planBytes, rawViol(newViol.Viol, prop), minBudget)
+		}
+		rp := Replay{Property: prop, Oracle: newViol.Viol.Oracle, Detail: newViol.Viol.Detail, Scenario: newViol.Scenario, Seed: newViol.Seed, Plan: minPlan, Minimised: tries > 0, Race: cfg.Race, Note: fmt.Sprintf("minimiser tried %d candidate plans", tries)}
+		if newViol.Res != nil {
+			rp.TraceHash = newViol.Res.TraceHash
+		}
+		os.MkdirAll(V+"/replays", 0o755)
+		path := fmt.Sprintf("%s/replays/%s-%d.json", V, prop, newViol.Seed)
+		b, _ := json.MarshalIndent(rp, "", " ")
+		os.WriteFile(path, b, 0o644)
+		// confirm in a fresh process; fall back to the unminimised plan
+		if doReplay(path, work, false) != 1 {
+			rp.Plan, rp.Minimised = planBytes, false
+			rp.Note += "; minimised plan did not reproduce, original plan kept"
+			b, _ = json.MarshalIndent(rp, "", " ")
+			os.WriteFile(path, b, 0o644)
+		}
+		fmt.Printf("violation: %s %s: %s\n", prop, newViol.Viol.Oracle, newViol.Viol.Detail)
+		if newViol.Res != nil {
+			for _, l := range newViol.Res.LogTail[max(0, len(newViol.Res.LogTail)-25):] {
+				fmt.Println("   ", l)
+			}
+		} else {
+			fmt.Println(tail(newViol.Stderr, 3000))
+		}
+		fmt.Printf("VIOLATION property=%s replay=%s\n", prop, path)
+	}
+	for id, n := range known {
+		for _, f := range findings {
+			if f.ID == id {
+				fmt.Printf("KNOWN-FINDING: property=%s %s (met %d times during exploration)\n", prop, f.What, n)
+			}
+		}
+	}
+
+	// 5. evidence
+	wall := time.Since(t0).Seconds()
+	faults := map[string]int64{}
+	probes := map[string]int64{}
+	for k, v := range counters {
+		if strings.HasPrefix(k, "fault.") {
+			faults[k] = v
+		} else {
+			probes[k] = v
+		}
+	}
+	for k, v := range probes {
+		if v == 0 {
+			probeZero = append(probeZero, k)
+		}
+	}
+	if len(samples) == 0 {
+		samples = append(samples, map[string]any{"note": "no clean non-trivial run to sample"})
+	}
+	ev := evidence{PropertyID: prop, Tier: *tier, Seed: baseSeed, Level: cfg.Level, WallS: wall, Violations: nviol,
+		Assumptions: append(append([]string{}, commonAssumptions...), cfg.Assumptions...),
+		Coverage: map[string]any{
+			"evaluations":            evals,
+			"distinct_nontrivial":    len(distinct),
+			"nontrivial_runs":        nontriv,
+			"distinct_plan_shapes":   len(distinctSig),
+			"rule":                   cfg.Rule,
+			"samples":                samples,
+			"runs_per_scenario":      perScenario,
+			"runs_per_hour":          float64(evals) / wall * 3600,
+			"simulated_seconds":      simSeconds,
+			"events":                 totalEvents,
+			"scheduler_choice_points": totalDraws,
+			"faults_fired":           faults,
+			"probes":                 probes,
+			"foreign_violations":     foreign,
+			"known_findings_met":     known,
+			"hangs":                  hangs,
+			"determinism_recheck":    map[string]int{"reran": detChecked, "mismatch": detMismatch},
+			"real_vs_stub":           "real: rain torrent/ + internal/* (filestorage, mse, trackers, resumer, bbolt, net/http); simulated seams: scheduler, clock, sockets/DNS, data files; stub: DHT; scripted: peers, trackers, web seeds",
+		}}
+	os.MkdirAll(V+"/evidence", 0o755)
+	eb, _ := json.MarshalIndent(ev, "", " ")
+	os.WriteFile(fmt.Sprintf("%s/evidence/%s.json", V, prop), eb, 0o644)
+	fmt.Printf("%s %s: %d runs (%d non-trivial, %d distinct traces) in %.0fs, %.0f simulated s, faults fired: %d kinds, foreign: %v, known: %v\n",
+		prop, *tier, evals, nontriv, len(distinct), wall, simSeconds, len(faults), foreign, known)
+	os.Exit(exit)
+}
+
+// normViol maps CRASH pseudo-properties to the check's property when it owns crashes.
+func normViol(v *Violation, prop string, cfg *propCfg) *Violation {
+	if v.Property == "CRASH" {
+		nv := *v
+		if cfg.OwnsCrash {
+			nv.Property = prop
+		}
+		return &nv
+	}
+	return v
+}
+
+func rawViol(v *Violation, prop string) *Violation {
+	nv := *v
+	if nv.Oracle == "panic" || nv.Oracle == "deadlock" || nv.Oracle == "hang" {
+		nv.Property = "CRASH"
+	}
+	return &nv
+}
+
+func compactPlan(p any) any {
+	// drop bulky fields (bitfields) from samples
+	switch x := p.(type) {
+	case map[string]any:
+		out := map[string]any{}
+		for k, v := range x {
+			if k == "Have" {
+				continue
+			}
+			out[k] = compactPlan(v)
+		}
+		return out
+	case []any:
+		out := make([]any, len(x))
+		for i := range x {
+			out[i] = compactPlan(x[i])
+		}
+		return out
+	}
+	return p
+}
+
+func readReplay(path string) *Replay {
+	b, err := os.ReadFile(path)
+	if err != nil {
+		die(2, "replay: %v", err)
+	}
+	var rp Replay
+	if err := json.Unmarshal(b, &rp); err != nil {
+		die(2, "replay: %v", err)
+	}
+	return &rp
+}
+
+// doReplay re-executes a replay file. Returns 1 if the same violation recurred, 0 if not.
+func doReplay(path, work string, verbose bool) int {
+	rp := readReplay(path)
+	dir := build(rp.Race)
+	bin := dir + "/sim.test"
+	if rp.Race {
+		bin = dir + "/sim.race.test"
+	}
+	r := &runner{bin: bin, tier: "quick", workDir: work, timeout: 240 * time.Second}
+	pf := writePlan(work, rp.Plan)
+	o := r.run(rp.Scenario, rp.Seed, pf, "SIM_LOGTAIL=1")
+	if verbose {
+		if o.Res != nil {
+			for _, l := range o.Res.LogTail {
+				fmt.Println(l)
+			}
+		} else {
+			fmt.Println(tail(o.Stderr, 6000))
+		}
+	}
+	same := false
+	if o.Viol != nil {
+		v := o.Viol
+		same = v.Oracle == rp.Oracle && (v.Property == rp.Property || v.Property == "CRASH")
+	}
+	if o.Kind == "hang" && rp.Oracle == "hang" {
+		same = true
+	}
+	if verbose {
+		if same {
+			fmt.Printf("replay reproduced: %s %s: %s\n", rp.Property, rp.Oracle, o.Viol.Detail)
+			fmt.Printf("VIOLATION property=%s replay=%s\n", rp.Property, path)
+		} else {
+			fmt.Printf("replay did NOT reproduce %s/%s (run kind=%s)\n", rp.Property, rp.Oracle, o.Kind)
+		}
+	}
+	if same {
+		return 1
+	}
+	return 0
+}
